@@ -18,6 +18,8 @@ def handleLine (fs : List (List String)) : Option String :=
     let rows := parseLines (splitLines toks)
     some ("L " ++ " / ".intercalate (rows.map fun r => " , ".intercalate (r.map fun f => if f.isEmpty then "e" else " ".intercalate (f.map toString))))
   | [["qlclines"]] => some "L "
+  | [["msaline"], toks] =>
+    some ("L " ++ " , ".intercalate ((parseMsaLine (toks.map nat!)).map fun f => if f.isEmpty then "e" else " ".intercalate (f.map toString)))
   | _ => none
 
 end Verif.Driver
